@@ -74,9 +74,14 @@ func (ssp *simpleSpanProcessor) Shutdown(ctx context.Context) error {
 		// span would need to be exported. Meaning, OnEnd would be called and
 		// try acquiring the lock that is held here.
 		ssp.exporterMu.Lock()
-		done, shutdown := stopFunc(ssp.exporter)
+		exporter := ssp.exporter
 		ssp.exporter = nil
 		ssp.exporterMu.Unlock()
+		if exporter == nil {
+			// Nothing to shut down (processor created without an exporter).
+			return
+		}
+		done, shutdown := stopFunc(exporter)
 
 		go shutdown()
 
